@@ -769,14 +769,45 @@ def _build_type_map(
         _type_map if _type_map is not None else {}
     )  # type: Dict[str, NamedType]
 
-    for type_ in types:
+    _register_types(types, type_map)
+
+    if directives:
+        directive_types = []  # type: List[GraphQLType]
+        for directive in directives:
+            directive_types.extend(
+                [arg.type for arg in directive.arguments or []]
+            )
+
+        _register_types(directive_types, type_map)
+
+    return type_map
+
+
+_DONE = object()
+
+
+def _register_types(
+    types: Iterable[Optional[GraphQLType]], type_map: Dict[str, NamedType]
+) -> None:
+    # Depth first, in the order a recursive walk visits the types, but with an
+    # explicit stack: a long chain of references between named types must not
+    # depend on the interpreter's recursion limit (nor on the order in which
+    # the types were supplied).
+    stack = [iter(types)]
+
+    while stack:
+        type_ = next(stack[-1], _DONE)
+
+        if type_ is _DONE:
+            stack.pop()
+            continue
 
         if type_ is None:
             continue
 
         child_types = []  # type: List[GraphQLType]
 
-        inner_type = unwrap_type(type_)
+        inner_type = unwrap_type(type_)  # type: ignore
 
         if not isinstance(inner_type, NamedType):
             raise SchemaError(
@@ -808,15 +839,4 @@ def _build_type_map(
             for input_field in inner_type.fields:
                 child_types.append(input_field.type)
 
-        type_map.update(_build_type_map(child_types, _type_map=type_map))
-
-    if directives:
-        directive_types = []  # type: List[GraphQLType]
-        for directive in directives:
-            directive_types.extend(
-                [arg.type for arg in directive.arguments or []]
-            )
-
-        type_map.update(_build_type_map(directive_types, _type_map=type_map))
-
-    return type_map
+        stack.append(iter(child_types))
